@@ -150,7 +150,11 @@ def run_phase(paths, scratch, out_name="out.vcf", trace=True, phase_inputs=None,
     except CommandLineError as e:
         err = f"CommandLineError: {e}"
     except Exception as e:  # noqa
-        err = f"{type(e).__name__}: {e}"
+        import traceback
+
+        tb = traceback.extract_tb(e.__traceback__)
+        where = "; ".join(f"{os.path.basename(f.filename)}:{f.lineno} {f.name}" for f in tb[-3:])
+        err = f"{type(e).__name__}: {e} @ {where}"
     finally:
         os.environ["WHATSHAP_VERIF_TRACE"] = "/dev/null"
     traces = []
